@@ -397,6 +397,49 @@ pub fn run(ctx: &Ctx) -> i32 {
             col.layer("command line program (-c / --command-file)", ncli, true, json!({"variant_kinds": wanted}));
         }
     }
+    // a statement means the same whatever was (mis)typed before it: in one thread every corpus statement is parsed right
+    // after each of a list of rejected texts and must lower to what it lowers to on a fresh thread
+    {
+        let bad = ["SELECT 1.2.3 FROM t", "SELECT 99999999999999999999 FROM t", "SELECT 'abc", "SELECT 1e FROM t", "SELECT x FROM t WHERE (", "CREATE TABLE t(line = '(', line[1] => a INT);", "SELECT CASE WHEN x THEN 1 FROM t", "SELECT x -- c", "SELEC", "SELECT a[ FROM t", "SELECT x FROM t LIMIT 1.5", "SELECT 0.5.5, 'q' FROM t"];
+        let corpus2: Vec<String> = corpus.iter().map(|s| corpus_tokens(s).join(" ")).collect();
+        let fresh: Vec<Option<String>> = std::thread::scope(|s| s.spawn(|| corpus2.iter().map(|t| parse_dbg(t).ok().and_then(|r| r.ok())).collect()).join().unwrap());
+        let after: Vec<Vec<Option<String>>> = std::thread::scope(|s| {
+            s.spawn(|| {
+                corpus2
+                    .iter()
+                    .map(|t| {
+                        bad.iter()
+                            .map(|b| {
+                                let _ = parse_dbg(b);
+                                parse_dbg(t).ok().and_then(|r| r.ok())
+                            })
+                            .collect()
+                    })
+                    .collect()
+            })
+            .join()
+            .unwrap()
+        });
+        let mut nb = 0u64;
+        for (i, t) in corpus2.iter().enumerate() {
+            for (j, b) in bad.iter().enumerate() {
+                nb += 1;
+                col.eval(1);
+                col.nontrivial(h64(&("after-bad", i, j)));
+                if after[i][j] != fresh[i] {
+                    col.fail(fail(
+                        "layout:after-a-rejected-text".into(),
+                        format!("{:?} parsed right after the rejected text {:?} on the same thread lowers to {:?}, on a fresh thread to {:?}", t, b, after[i][j].as_ref().map(|s| s.chars().take(80).collect::<String>()), fresh[i].as_ref().map(|s| s.chars().take(80).collect::<String>())),
+                        json!({"layer": "after-bad", "original": t, "rejected_before": b}),
+                        json!(fresh[i]),
+                        json!(after[i][j]),
+                        (i * 100 + j) as u64,
+                    ));
+                }
+            }
+        }
+        col.layer("statements parsed after rejected texts on one thread", nb, true, json!({"rejected_texts": bad}));
+    }
     let mut nl = 0;
     for body in literal_bodies() {
         for c in 0..5 {
@@ -425,6 +468,10 @@ pub fn run(ctx: &Ctx) -> i32 {
 
 pub fn replay(case: &J) -> Vec<Failure> {
     match case["layer"].as_str() {
+        Some("after-bad") | Some("cli") => {
+            println!("note: cases of this layer are replayed by re-running `./check C20 quick`");
+            vec![]
+        }
         Some("literal") => judge_literal(case["body"].as_str().unwrap(), case["context"].as_u64().unwrap() as usize),
         _ => judge_variant(case["original"].as_str().unwrap(), case["kind"].as_str().unwrap_or(""), case["variant"].as_str().unwrap(), 0),
     }
